@@ -367,7 +367,7 @@ var vhShrinkOps2 = [][]string{
 	{"DEL", "a", "id02"},
 }
 
-//verif:cfg use=dirmodel b_dataset=2_collections(3+3_objects)+1_channel b_interference=1_write(15_kinds)_optionally_followed_by_a_second(7_kinds)_before_any_lock_acquisition_of_the_rewrite ignorego=1 maxsteps=40000000
+//verif:cfg use=dirmodel b_dataset=2_collections(3+3_objects)+1_channel b_interference=1_write(15_kinds)_optionally_followed_by_a_second_AOFSHRINK_and/or_a_second_write(7_kinds)_before_any_lock_acquisition_of_the_rewrite ignorego=1 maxsteps=40000000
 func VH_C09_interference() {
 	s, lk := vhShrinkServer()
 	for i := 0; i < 3; i++ {
@@ -383,6 +383,7 @@ func VH_C09_interference() {
 	if k := vchoose(len(vhShrinkOps2) + 1); k > 0 {
 		op2 = vhShrinkOps2[k-1]
 	}
+	again := vnondetBool()
 	count, busy, fired := 0, false, false
 	lk.onLock = func() {
 		if busy {
@@ -391,6 +392,11 @@ func VH_C09_interference() {
 		if count == at {
 			busy, fired = true, true
 			vhWriteCmd(s, op...)
+			if again {
+				// a second AOFSHRINK arrives while the first is rewriting: it finds one running and leaves it alone
+				s.aofshrink()
+				vreach("second-aofshrink-during-the-first")
+			}
 			if op2 != nil {
 				vhWriteCmd(s, op2...)
 			}
